@@ -164,6 +164,18 @@ func digestJSON(v interface{}) string {
 	return hex.EncodeToString(d[:8])
 }
 
+// digestValue is digestJSON of the JSON VALUE (canonical form: -0 is 0, 1.0 is 1).
+func digestValue(v interface{}) string {
+	raw, err := refJCS(generic(v))
+	if err != nil {
+		return "jcs-error:" + err.Error()
+	}
+
+	d := sha256.Sum256(raw)
+
+	return hex.EncodeToString(d[:8])
+}
+
 // project maps a real resolution model to the abstract record. Anything the abstraction
 // cannot name becomes a negative / 1000+ id, which never equals a specification value.
 func (e *applierEnv) project(rm *protocol.ResolutionModel) ARM {
@@ -223,7 +235,7 @@ func (e *applierEnv) project(rm *protocol.ResolutionModel) ARM {
 			a.Ao = -1
 		}
 	case map[string]interface{}:
-		if f, ok := ao["o"].(float64); ok && digestJSON(ao) == digestJSON(anchorOrigin(100+int(f))) {
+		if f, ok := ao["o"].(float64); ok && digestValue(ao) == digestValue(anchorOrigin(100+int(f))) {
 			a.Ao = 100 + int(f)
 		} else {
 			a.Ao = -1
@@ -708,6 +720,28 @@ func applierReplay(args []string) {
 							g2 := env.project(r2.next.rm)
 							atomic.AddInt64(&tampers, 1)
 							judge(r2, g2, v, "tamper-")
+						}
+
+						// the first instances of the class once more under every other key type (the signature formats
+						// and their verifiers differ by type)
+						for _, kt := range allKTs {
+							if kt == ed.Op.Kt {
+								continue
+							}
+
+							alt := ed.Op
+							alt.Kt = kt
+
+							altTwin := alt
+							altTwin.Sig = "ok"
+							env.stepVariant(pre, &altTwin, 0)
+
+							for v := 0; v < n && v < 5; v++ {
+								r2 := env.stepVariant(pre, &alt, v)
+								g2 := env.project(r2.next.rm)
+								atomic.AddInt64(&tampers, 1)
+								judge(r2, g2, v, "keytype-"+kt+"-")
+							}
 						}
 					}
 				}
